@@ -69,6 +69,11 @@ pub struct Job {
     /// `play()` blocks of `n` samples with an interner operation (= scheduling point) in between
     #[serde(default)]
     pub driver: Option<u32>,
+    /// compile the same source this many more times on the same context (an editor or the CLI
+    /// recompiling on every save): every listing must equal the first one, and every further
+    /// compilation passes through all compiler phases again while the other jobs run
+    #[serde(default)]
+    pub recompile: u32,
 }
 
 #[derive(Clone, Debug, Serialize, Deserialize, PartialEq)]
@@ -178,7 +183,14 @@ fn run_job(job: &Job) -> JobResult {
                     .collect(),
             ),
             Ok(()) => {
-                let listing = fnv(format!("{}", ctx.get_vm().unwrap().prog).as_bytes());
+                let mut listing = fnv(format!("{}", ctx.get_vm().unwrap().prog).as_bytes());
+                for _ in 0..job.recompile {
+                    let again = match ctx.get_compiler().unwrap().emit_bytecode(&src) {
+                        Ok(p) => fnv(format!("{p}").as_bytes()),
+                        Err(e) => fnv(format!("diagnostics:{}", e.len()).as_bytes()),
+                    };
+                    listing = fnv(format!("{listing}:{again}").as_bytes());
+                }
                 if let Some(d) = driver.as_mut() {
                     use mimium_audiodriver::driver::{Driver, RuntimeData, SampleRate};
                     let point = || {
@@ -263,10 +275,11 @@ fn mask_ids(msg: &str) -> String {
     out
 }
 
-fn sh_config(persist_dir: Option<&str>) -> ShConfig {
+fn sh_config(persist_dir: Option<&str>, extra_compiles: u64) -> ShConfig {
     let mut cfg = ShConfig::new();
     cfg.stack_size = 16 << 20;
-    cfg.max_steps = MaxSteps::FailAfter(20_000_000);
+    // the bounded-liveness form of "no interleaving hangs": the bound grows with the work asked for
+    cfg.max_steps = MaxSteps::FailAfter(20_000_000 + 4_000_000 * extra_compiles as usize);
     cfg.failure_persistence = match persist_dir {
         Some(d) => FailurePersistence::File(Some(PathBuf::from(d))),
         None => FailurePersistence::None,
@@ -282,7 +295,7 @@ fn alone(jobs: &[Job], relocate: bool) -> Vec<JobResult> {
             let slot = std::sync::Arc::new(std::sync::Mutex::new(None));
             let s2 = slot.clone();
             let _ = relocate;
-            let runner = Runner::new(RandomScheduler::new_from_seed(1, 1), sh_config(None));
+            let runner = Runner::new(RandomScheduler::new_from_seed(1, 1), sh_config(None, j.recompile as u64));
             let r = catch_unwind(AssertUnwindSafe(|| {
                 runner.run(move || {
                     let r = run_job(&j);
@@ -306,8 +319,17 @@ struct Verdict {
 }
 
 /// Exploration that only records every execution's results (compared afterwards).
+static ST_STEPS: std::sync::atomic::AtomicU64 = std::sync::atomic::AtomicU64::new(0);
+static ST_EXECUTIONS: std::sync::atomic::AtomicU64 = std::sync::atomic::AtomicU64::new(0);
+
+fn note_steps() {
+    ST_STEPS.fetch_add(shuttle::current::context_switches() as u64, std::sync::atomic::Ordering::Relaxed);
+    ST_EXECUTIONS.fetch_add(1, std::sync::atomic::Ordering::Relaxed);
+}
+
 fn explore_recording(sc: &Scenario) -> (Vec<Vec<JobResult>>, Option<(String, String)>) {
     let jobs = sc.jobs.clone();
+    let extra: u64 = sc.jobs.iter().map(|j| j.recompile as u64).sum();
     let log: std::sync::Arc<std::sync::Mutex<Vec<Vec<JobResult>>>> = Default::default();
     let log2 = log.clone();
     let body = move || {
@@ -320,15 +342,16 @@ fn explore_recording(sc: &Scenario) -> (Vec<Vec<JobResult>>, Option<(String, Str
             .into_iter()
             .map(|h| h.join().unwrap_or(JobResult::Panicked("join failed".into())))
             .collect();
+        note_steps();
         log2.lock().unwrap().push(results);
     };
     let r = catch_unwind(AssertUnwindSafe(|| {
         match sc.sched {
             SchedKind::Random => {
-                Runner::new(RandomScheduler::new_from_seed(sc.sched_seed, sc.iterations), sh_config(None)).run(body)
+                Runner::new(RandomScheduler::new_from_seed(sc.sched_seed, sc.iterations), sh_config(None, extra)).run(body)
             }
             SchedKind::Pct(d) => {
-                Runner::new(PctScheduler::new_from_seed(sc.sched_seed, d, sc.iterations), sh_config(None)).run(body)
+                Runner::new(PctScheduler::new_from_seed(sc.sched_seed, d, sc.iterations), sh_config(None, extra)).run(body)
             }
         };
     }));
@@ -368,6 +391,7 @@ fn mismatch_kind(got: &JobResult, exp: &JobResult) -> &'static str {
 
 fn explore(sc: &Scenario, expected: &[JobResult], persist_dir: &str) -> Verdict {
     let jobs = sc.jobs.clone();
+    let extra: u64 = sc.jobs.iter().map(|j| j.recompile as u64).sum();
     let expected_again = expected.to_vec();
     let expected = expected.to_vec();
     let body = move || {
@@ -380,6 +404,7 @@ fn explore(sc: &Scenario, expected: &[JobResult], persist_dir: &str) -> Verdict 
             .into_iter()
             .map(|h| h.join().unwrap_or(JobResult::Panicked("join failed".into())))
             .collect();
+        note_steps();
         for (k, (got, exp)) in results.iter().zip(expected.iter()).enumerate() {
             if got != exp {
                 let kind = match (got, exp) {
@@ -407,12 +432,12 @@ fn explore(sc: &Scenario, expected: &[JobResult], persist_dir: &str) -> Verdict 
             match sc.sched {
                 SchedKind::Random => Runner::new(
                     RandomScheduler::new_from_seed(sc.sched_seed, sc.iterations),
-                    sh_config(Some(persist_dir)),
+                    sh_config(Some(persist_dir), extra),
                 )
                 .run(body),
                 SchedKind::Pct(d) => Runner::new(
                     PctScheduler::new_from_seed(sc.sched_seed, d, sc.iterations),
-                    sh_config(Some(persist_dir)),
+                    sh_config(Some(persist_dir), extra),
                 )
                 .run(body),
             };
@@ -507,7 +532,7 @@ const WORDS: [&str; 16] = [
 /// glob imports of two modules exporting the same name, and a neighbour that merely uses the same
 /// spellings as ordinary identifiers.
 fn gen_special(r: &mut Rng) -> String {
-    let which = r.below(9);
+    let which = r.below(10);
     gen_special_of(r, which)
 }
 
@@ -515,6 +540,26 @@ fn gen_special_of(r: &mut Rng, which: u64) -> String {
     let mut w: Vec<&str> = WORDS.to_vec();
     r.shuffle(&mut w);
     match which {
+        // the small sibling of template 5: a staged program whose first main-stage statement is
+        // one `let` with two or three sibling nested tuple patterns and little else, so that a
+        // whole job is some 1e4 scheduling points long and two such jobs pass through the staging
+        // translation within the distance that random scheduling diffuses
+        9 => {
+            let v: Vec<String> = (0..6).map(|_| format!("{:.1}", r.range(1, 9) as f64)).collect();
+            if r.chance(1, 2) {
+                format!(
+                    "#stage(macro)\nfn one{m}(){{\n  `{{ 1.0 }}\n}}\n#stage(main)\nfn dsp(){{\n  let ((a, b), (c, d)) = (({}, {}), ({}, {}))\n  (((a * 10.0 + b) * 10.0 + c) * 10.0 + d) * one{m}!()\n}}\n",
+                    v[0], v[1], v[2], v[3],
+                    m = w[0]
+                )
+            } else {
+                format!(
+                    "#stage(macro)\nfn one{m}(){{\n  `{{ 1.0 }}\n}}\n#stage(main)\nfn dsp(){{\n  let ((a, b), (c, d), (e, f)) = (({}, {}), ({}, {}), ({}, {}))\n  (((((a * 10.0 + b) * 10.0 + c) * 10.0 + d) * 10.0 + e) * 10.0 + f) * one{m}!()\n}}\n",
+                    v[0], v[1], v[2], v[3], v[4], v[5],
+                    m = w[0]
+                )
+            }
+        }
         // programs with large types: tuples nested 8..28 levels (one `let` per level: a literal
         // nested six levels deep does not parse), wide tuples, or closures returning closures;
         // every walk over such a type is a long, deep stretch of type-arena operations
@@ -685,7 +730,7 @@ fn gen_scenario(seed: u64) -> Scenario {
     let identical = r_cfg.chance(1, 4);
     // family: every job is an instance of the same special template (same shape, other constants
     // and names), so all threads go through the same compiler phases at the same time
-    let same_template = if r_cfg.chance(1, 4) { Some(r_cfg.below(9)) } else { None };
+    let same_template = if r_cfg.chance(1, 4) { Some(r_cfg.below(10)) } else { None };
     let mut jobs = vec![];
     for i in 0..k {
         let src = if let Some(t) = same_template {
@@ -703,6 +748,7 @@ fn gen_scenario(seed: u64) -> Scenario {
             wasm: r.chance(1, 5),
             stagger: 0,
             driver: None,
+            recompile: 0,
         });
     }
     // jobs that include one generated library file (never seen by this process before)
@@ -753,6 +799,16 @@ fn gen_scenario(seed: u64) -> Scenario {
         for j in jobs.iter_mut() {
             j.src = Src::Text(gen_special_of(&mut r_big, 8));
             j.driver = None;
+        }
+    }
+    // family: every job recompiles its source 2..12 times on its context
+    let mut r_re = root.sub("recompile");
+    if r_re.chance(1, 5) {
+        for j in jobs.iter_mut() {
+            if j.driver.is_none() {
+                j.recompile = r_re.range(2, 12) as u32;
+                j.n = j.n.min(2);
+            }
         }
     }
     if r_cfg.chance(1, 2) {
@@ -822,6 +878,9 @@ fn judge(sc: &Scenario, persist_dir: &str) -> serde_json::Value {
     };
     let mut counters = serde_json::Map::new();
     counters.insert("schedules".into(), json!(v.schedules));
+    counters.insert("scheduling_steps".into(), json!(ST_STEPS.swap(0, std::sync::atomic::Ordering::Relaxed)));
+    counters.insert("executions_completed".into(), json!(ST_EXECUTIONS.swap(0, std::sync::atomic::Ordering::Relaxed)));
+    counters.insert("recompiles".into(), json!(sc.jobs.iter().map(|j| j.recompile as u64).sum::<u64>()));
     counters.insert("jobs".into(), json!(sc.jobs.len()));
     counters.insert("relocate_fault_runs".into(), json!(sc.relocate as u64));
     counters.insert("pct_runs".into(), json!(matches!(sc.sched, SchedKind::Pct(_)) as u64));
@@ -890,7 +949,7 @@ fn main() {
             let t: u64 = args[2].parse().unwrap();
             sc.libs.clear();
             sc.jobs = (0..args[4].parse::<usize>().unwrap())
-                .map(|_| Job { src: Src::Text(gen_special_of(&mut r, t)), n: 2, wasm: false, driver: None, stagger: r.below(args.get(6).and_then(|s| s.parse().ok()).unwrap_or(1)) as u32 })
+                .map(|_| Job { src: Src::Text(gen_special_of(&mut r, t)), n: 2, wasm: false, driver: None, recompile: args.get(7).and_then(|s| s.parse().ok()).unwrap_or(0), stagger: r.below(args.get(6).and_then(|s| s.parse().ok()).unwrap_or(1)) as u32 })
                 .collect();
             sc.iterations = args[5].parse().unwrap();
             println!("{}", serde_json::to_string_pretty(&sc).unwrap());
